@@ -254,30 +254,33 @@ inductive BodyStep
   | panic (site : String)
   deriving DecidableEq, Repr
 
+/-- `read_union` followed, when nothing is found, by the end-of-`<smiles>` test -/
+def unionStep (s : Str) : BodyStep :=
+  match readAtom (readBond s).2 with
+  | .ok k rest => .atom (readBond s).1 k rest
+  | .fail a => .fail a
+  | .panic p => .panic p
+  | .absent =>
+    match readRnum (readBond s).2 with
+    | .ok r rest => .ring (readBond s).1 r rest
+    | .fail a => .fail a
+    | .panic p => .panic p
+    | .absent =>
+      if (readBond s).1 ≠ .elided then .fail (readBond s).2
+      else
+        match s with
+        | [] => .eoi
+        | ')' :: rest => .close rest
+        | _ => .fail s
+
 def bodyStep (s : Str) : BodyStep :=
   match s with
   | '(' :: rest => .openParen rest
   | '.' :: rest => .dot rest
-  | _ =>
-    match readAtom (readBond s).2 with
-    | .ok k rest => .atom (readBond s).1 k rest
-    | .fail a => .fail a
-    | .panic p => .panic p
-    | .absent =>
-      match readRnum (readBond s).2 with
-      | .ok r rest => .ring (readBond s).1 r rest
-      | .fail a => .fail a
-      | .panic p => .panic p
-      | .absent =>
-        if (readBond s).1 ≠ .elided then .fail (readBond s).2
-        else
-          match s with
-          | [] => .eoi
-          | ')' :: rest => .close rest
-          | _ => .fail s
+  | _ => unionStep s
 
 theorem bodyStep_openParen {s rest} (h : bodyStep s = .openParen rest) : s = '(' :: rest := by
-  unfold bodyStep at h
+  unfold bodyStep unionStep at h
   split at h
   · cases h; rfl
   · cases h
@@ -285,7 +288,7 @@ theorem bodyStep_openParen {s rest} (h : bodyStep s = .openParen rest) : s = '('
     all_goals cases h
 
 theorem bodyStep_dot {s rest} (h : bodyStep s = .dot rest) : s = '.' :: rest := by
-  unfold bodyStep at h
+  unfold bodyStep unionStep at h
   split at h
   · cases h
   · cases h; rfl
@@ -293,7 +296,7 @@ theorem bodyStep_dot {s rest} (h : bodyStep s = .dot rest) : s = '.' :: rest := 
     all_goals cases h
 
 theorem bodyStep_close {s rest} (h : bodyStep s = .close rest) : s = ')' :: rest := by
-  unfold bodyStep at h
+  unfold bodyStep unionStep at h
   split at h
   · cases h
   · cases h
@@ -302,7 +305,7 @@ theorem bodyStep_close {s rest} (h : bodyStep s = .close rest) : s = ')' :: rest
     cases h; rfl
 
 theorem bodyStep_atom_len {s b k rest} (h : bodyStep s = .atom b k rest) : rest.length < s.length := by
-  unfold bodyStep at h
+  unfold bodyStep unionStep at h
   split at h
   · cases h
   · cases h
@@ -316,7 +319,7 @@ theorem bodyStep_atom_len {s b k rest} (h : bodyStep s = .atom b k rest) : rest.
     all_goals cases h
 
 theorem bodyStep_ring_len {s b r rest} (h : bodyStep s = .ring b r rest) : rest.length < s.length := by
-  unfold bodyStep at h
+  unfold bodyStep unionStep at h
   split at h
   · cases h
   · cases h
